@@ -6,6 +6,7 @@ CONSTANTS
  CommonU <- NoValues  CommonV <- NoValues
  FamStreams <- NoValues  FamBase = 3  FamGroups <- NoValues
  ParkA <- NoValues  ParkB <- NoValues
+ EncN <- NoValues
  Volume = FALSE
  MinSteps = 99  MaxSteps = 8
 VIEW View
